@@ -48,7 +48,7 @@ func VerifC15_v1_new() {
 	vReach("accepted")
 	vAssert(len(d.priorities) == n, "every configured priority is listed once")
 	for i := range d.priorities {
-		vAssert(d.priorities[i] == e.ps[i], "C05: priorities are sorted from highest to lowest before every division")
+		vAssert(d.priorities[i] == e.ps[i], "C05/C15: priorities are sorted from highest to lowest before every division")
 	}
 	var st []uint
 	for _, p := range e.ps {
